@@ -12,12 +12,13 @@ def manylinux_floor(arch: str) -> int:
 
 
 def oracle_manylinux(minor: int, arch: str) -> list[str]:
-    out = []
+    """manylinux tags newest first, each legacy alias right after its perennial twin; linux_<arch> FIRST, which is
+    where packaging.tags (26.x) ranks the plain platform tag (older releases ranked it last)."""
+    out = [f"linux_{arch}"]
     for k in range(minor, manylinux_floor(arch) - 1, -1):
         out.append(f"manylinux_2_{k}_{arch}")
         if k in LEGACY:
             out.append(f"{LEGACY[k]}_{arch}")
-    out.append(f"linux_{arch}")
     return out
 
 
@@ -53,9 +54,21 @@ def pk_manylinux(minor: int, arch: str) -> list[str]:
 
     saved = ml._get_glibc_version, ml._have_compatible_abi
     try:
+        import sysconfig
+
+        import packaging._musllinux as mu
+        import packaging.tags as pt
+
         ml._get_glibc_version = lambda: ml._GLibCVersion(2, minor)
         ml._have_compatible_abi = lambda exe, archs: True
-        return list(ml.platform_tags([arch])) + [f"linux_{arch}"]
+        saved_plat, saved_musl = sysconfig.get_platform, mu._get_musl_version
+        sysconfig.get_platform = lambda: f"linux-{arch}"
+        mu._get_musl_version = lambda exe: None
+        try:
+            # the whole generator, so that the position of linux_<arch> is packaging's, not mine
+            return list(pt._linux_platforms(is_32bit=False))
+        finally:
+            sysconfig.get_platform, mu._get_musl_version = saved_plat, saved_musl
     finally:
         ml._get_glibc_version, ml._have_compatible_abi = saved
 
